@@ -476,8 +476,8 @@ class ConsumerMdib(mdibbase.MdibBase):
         states_by_handle = {}
         try:
             if self._can_accept_mdib_version(mdib_version_group.mdib_version, 'metric states'):
-                self._update_from_mdib_version_group(mdib_version_group)
                 states_by_handle = self._update_from_states_report('metric states', report)
+                self._update_from_mdib_version_group(mdib_version_group)
         finally:
             self.metrics_by_handle = states_by_handle  # update observable
 
@@ -507,8 +507,8 @@ class ConsumerMdib(mdibbase.MdibBase):
         states_by_handle = {}
         try:
             if self._can_accept_mdib_version(mdib_version_group.mdib_version, 'alert states'):
-                self._update_from_mdib_version_group(mdib_version_group)
                 states_by_handle = self._update_from_states_report('alert states', report)
+                self._update_from_mdib_version_group(mdib_version_group)
         finally:
             self.alert_by_handle = states_by_handle  # update observable
 
@@ -538,8 +538,8 @@ class ConsumerMdib(mdibbase.MdibBase):
         states_by_handle = {}
         try:
             if self._can_accept_mdib_version(mdib_version_group.mdib_version, 'operational states'):
-                self._update_from_mdib_version_group(mdib_version_group)
                 states_by_handle = self._update_from_states_report('operational states', report)
+                self._update_from_mdib_version_group(mdib_version_group)
         finally:
             self.operation_by_handle = states_by_handle  # update observable
 
@@ -569,8 +569,8 @@ class ConsumerMdib(mdibbase.MdibBase):
         states_by_handle = {}
         try:
             if self._can_accept_mdib_version(mdib_version_group.mdib_version, 'context states'):
-                self._update_from_mdib_version_group(mdib_version_group)
                 states_by_handle = self._update_from_context_states_report(report)
+                self._update_from_mdib_version_group(mdib_version_group)
         finally:
             self.context_by_handle = states_by_handle  # update observable
 
@@ -600,8 +600,8 @@ class ConsumerMdib(mdibbase.MdibBase):
         states_by_handle = {}
         try:
             if self._can_accept_mdib_version(mdib_version_group.mdib_version, 'component states'):
-                self._update_from_mdib_version_group(mdib_version_group)
                 states_by_handle = self._update_from_states_report('component states', report)
+                self._update_from_mdib_version_group(mdib_version_group)
         finally:
             self.component_by_handle = states_by_handle  # update observable
 
@@ -631,7 +631,6 @@ class ConsumerMdib(mdibbase.MdibBase):
         states_by_handle = {}
         try:
             if self._can_accept_mdib_version(mdib_version_group.mdib_version, 'waveform states'):
-                self._update_from_mdib_version_group(mdib_version_group)
                 for state_container in state_containers:
                     old_state_container = self.states.descriptor_handle.get_one(
                         state_container.DescriptorHandle,
@@ -673,6 +672,7 @@ class ConsumerMdib(mdibbase.MdibBase):
                         self.rt_buffers[d_handle] = rt_buffer
                     rt_sample_containers = rt_buffer.mk_rt_sample_containers(state_container)
                     rt_buffer.add_rt_sample_containers(rt_sample_containers)
+                self._update_from_mdib_version_group(mdib_version_group)
         finally:
             self.waveform_by_handle = states_by_handle  # update observable
 
@@ -709,7 +709,6 @@ class ConsumerMdib(mdibbase.MdibBase):
         try:
             dmt = self.sdc_definitions.data_model.msg_types.DescriptionModificationType
             if self._can_accept_mdib_version(mdib_version_group.mdib_version, 'descriptors'):
-                self._update_from_mdib_version_group(mdib_version_group)
                 for report_part in report.ReportPart:
                     modification_type = report_part.ModificationType
                     if modification_type == dmt.CREATE:
@@ -803,6 +802,7 @@ class ConsumerMdib(mdibbase.MdibBase):
                     else:
                         msg = f'unknown modification type {modification_type} in description modification report'
                         raise ValueError(msg)
+                self._update_from_mdib_version_group(mdib_version_group)
 
         finally:
             self.description_modifications = report  # update observable for complete report
